@@ -127,10 +127,8 @@ def _run_own(ck):
     sys.path.insert(0, os.path.dirname(os.path.dirname(os.path.dirname(os.path.abspath(__file__)))))
     from refs import effects_ref as E
     from .. import reffect, enumeval
-    from .C11 import is_identity_contract, ISID
-    r = is_identity_contract(facts)
-    for name, ok in (r or [('analysable', False)]):
-        ck.ob('R-MATCH', ISID + '/' + name.split(' (')[0], ok, ck.site(ISID), 'is_identity (the test behind every "equal" answer) answers true without establishing: %s' % name)
+    from .C11 import is_identity_obligations
+    is_identity_obligations(ck, facts, ' (the test behind every "equal" answer)')
     for key in ('graph::GraphLike::adjoint', 'graph::GraphLike::to_adjoint', 'graph::GraphLike::plug', 'graph::GraphLike::append_graph'):
         reffect.check_schema(ck, 'R-EFFECT', key, E.C11_SCHEMAS[key], no_vars=False)
     ET = 'graph::EType::'
